@@ -1,9 +1,9 @@
 """C07 — tail-call optimisation is transparent (narrowed): the trampoline loop of eval_func_with_values, decided on a
 verbatim source slice in a scripted environment."""
-from . import c08
+from . import c08, kcrate
 
 OUT = [
-    "tail-position detection in eval's Call arm and tail-flag forwarding by the short-circuit natives (need the evaluator / natives)",
+    "tail-position detection in eval's Call arm (needs the evaluator); natives other than if, if_error, and, or, optional or/and",
     "equivalence with ordinary recursion for real function bodies; only the trampoline's own logic is decided: "
     "scripts of <= 5 steps, recursion limits <= 3",
 ]
@@ -11,4 +11,5 @@ OUT = [
 
 def run(chk):
     c08.run_slices(chk, ["c07_"])
-    return chk.finish(out_of_claim=OUT)
+    # the short-circuit natives hand the caller's tail flag to the selected branch only (recording evaluator)
+    return kcrate.run(chk, [("builtin__generic.rs", "c06_if"), ("builtin__bool.rs", "c06_bool"), ("builtin__optional.rs", "c06_optional")], out=OUT)
